@@ -3,7 +3,7 @@ import asyncio
 import socket
 
 from hypothesis import strategies as st
-from hypothesis.stateful import RuleBasedStateMachine, precondition, rule
+from hypothesis.stateful import RuleBasedStateMachine, initialize, precondition, rule
 
 from ..engine import Sub, Violation, machine_guard
 from ..fake import net, udptx
@@ -291,6 +291,15 @@ def machine_factory(nports):
 
             def do(self, step):
                 machine_guard(rep, new, sub_name, self.dead, lambda: self.sys.apply(step), self.sys.case, ctl)
+
+            @initialize(begin=st.sampled_from(["nothing", "start", "start", "enter", "occupy-then-start"]), port=st.integers(0, nports - 1))
+            def begin(self, begin, port):
+                # most histories should get the bridge going early, some with a port already taken
+                if begin == "occupy-then-start":
+                    self.do({"action": "occupy", "port": port})
+                    self.do({"action": "start"})
+                elif begin != "nothing":
+                    self.do({"action": begin})
 
             @precondition(lambda self: not self.sys.running)
             @rule(how=st.sampled_from(["start", "start", "enter"]))
